@@ -60,3 +60,40 @@ Example C10_nonvacuous :
   convert t_bd t_tbl t_ord t_offs 20 300 t_K t_mC = COk 27000 /\
   affine_case_ok t_bd t_tbl t_ord t_offs 20 0 t_K t_mC 1000 (-273000) = true.
 Proof. split; vm_compute; reflexivity. Qed.
+
+(* ---- the tables a history of declarations builds ----
+   conversions.translate stores ratio 1 in both directions and the zero point with opposite signs (the per-run obligation
+   Gen_trshape.translate_stores_shipped reads the four assignments off the source; the first theorem identifies them with the model's
+   translate_ratios / translate_offsets).  After ANY history of equate and translate declarations (what they accept: non-zero magnitudes,
+   two different units) every stored ratio has its reciprocal stored the other way and every stored offset its opposite; a scale and its
+   degree convert there and back to exactly the magnitude started from. *)
+From Measured Require Import Model.Declare Proofs.EquateFacts.
+
+Theorem C10_source_stores_are_model_translate : forall stores t o scale degree z,
+  tshapes_eqb stores shipped_tstores = true ->
+  translate_of stores t o scale degree z = (translate_ratios t scale degree, translate_offsets o scale degree z).
+Proof. exact shipped_tstores_are_translate. Qed.
+Print Assumptions C10_source_stores_are_model_translate.
+
+Theorem C10_history_tables : forall ds st,
+  Forall anydecl_ok ds -> Reciprocal (fst st) -> Opposite (snd st) ->
+  Reciprocal (fst (fold_left declare_any ds st)) /\ Opposite (snd (fold_left declare_any ds st)).
+Proof. exact history_tables. Qed.
+Print Assumptions C10_history_tables.
+
+Theorem C10_translated_pair_roundtrip : forall o scale degree z m,
+  ukey_eqb scale degree = false ->
+  exists z1 z2, tget (translate_offsets o scale degree z) degree scale = Some z1 /\
+                tget (translate_offsets o scale degree z) scale degree = Some z2 /\ (m * 1 + z1) * 1 + z2 == m.
+Proof. exact translated_pair_roundtrip. Qed.
+Print Assumptions C10_translated_pair_roundtrip.
+
+(* non-vacuity: Celsius-like scale on a kelvin-like degree, then a re-declared equivalence, from empty tables *)
+Example C10_history_nonvacuous :
+  let st := fold_left declare_any [DTranslate kx_a kx_b (27315 # 100); DEquate (1, kx_a, 17 # 10, kx_b); DTranslate kx_a kx_b (27315 # 100)] ([], []) in
+  Reciprocal (fst st) /\ Opposite (snd st) /\ tget (snd st) kx_b kx_a = Some (- (27315 # 100)) /\ tget (fst st) kx_a kx_b = Some 1.
+Proof.
+  cbv zeta. split; [|split; [|split; vm_compute; reflexivity]];
+  apply history_tables; try exact reciprocal_empty; try exact opposite_empty;
+  repeat constructor; try (vm_compute; discriminate); vm_compute; reflexivity.
+Qed.
